@@ -245,9 +245,11 @@ def _run(ctx, broken, d):
                             continue
                         if re.search(r"pkg/obiseq/(pool|biosequence|attributes|revcomp|subseq)\.go|pkg/obialign/|pkg/obiapat/|pkg/obingslibrary/", rep_):
                             relevant += 1
-                            if relevant <= 2:
-                                ctx.violation("c05_race_%s" % name, dict(property="C05", kind="data-race-on-record-state", argv=argv, max_cpu=c, batch_size=b,
-                                                                         gomaxprocs=g, race_report=rep_[:4000]))
+                            if relevant <= 3:
+                                # informative only: a race report is not by itself a dependence of the OUTPUT on the schedule
+                                # (the unchanged tree has benign ones, e.g. the lazy initialisation of the score tables);
+                                # what decides C05 is bytes, poison, crashes and the pool traces
+                                ctx.cov.setdefault("race_report_samples", []).append(dict(command=name, max_cpu=c, batch_size=b, report=rep_[:1500]))
             ctx.cov["race_reports_on_record_state"] = relevant
     ctx.cov["evaluations"] = runs
     ctx.cov["distinct_nontrivial"] = len(nontrivial)
